@@ -38,7 +38,9 @@ def run(prog: Program) -> Results:
     # ---------------------------------------------------------------- R-C13-1
     r1 = res.rule("R-C13-1", "subclass tests precede superclass tests in Python->Nix coercion (bool before int), whenever "
                   "the two arms differ", floor=2)
-    for key in ("coerce_expression", "_primitive_cls_from_value"):
+    # the class dispatcher of Primitive(...): the helper, or Primitive.__new__ itself when the helper was folded into it
+    dispatcher = "_primitive_cls_from_value" if prog.has_func("_primitive_cls_from_value") else "Primitive.__new__"
+    for key in ("coerce_expression", dispatcher):
         f = prog.func(key)
         res.analysed_functions.add(key)
         cfg = CFG(f.node)
@@ -68,8 +70,9 @@ def run(prog: Program) -> Results:
             # (`Primitive(value=v)`, whose __new__ selects the class through _primitive_cls_from_value)
             arm = _arm_text(cfg, n, lab)
             new_m = prog.method("Primitive", "__new__")
-            dispatches = new_m is not None and any(isinstance(c, ast.Call) and callee(c) == "_primitive_cls_from_value" for c in ast.walk(new_m.node))
-            delegated = key != "_primitive_cls_from_value" and dispatches and (
+            dispatches = new_m is not None and (dispatcher == "Primitive.__new__" or any(
+                isinstance(c, ast.Call) and callee(c) == "_primitive_cls_from_value" for c in ast.walk(new_m.node)))
+            delegated = key != dispatcher and dispatches and (
                 f"Primitive(value={v})" in arm or f"Primitive({v})" in arm or f"_primitive_cls_from_value({v})" in arm)
             r1.ob(delegated, {"function": key, "shared_arm": arm[:80], "delegates_to_dispatcher": delegated})
             if not delegated:
@@ -218,7 +221,8 @@ def run(prog: Program) -> Results:
         sites.append(rb.nested["render_item"])
     else:
         sites.append(rb)
-    sites.append(prog.func("NixList._inline_preview"))
+    # the compact preview: its own method, or folded into simple_inline_preview
+    sites.append(prog.func("NixList._inline_preview") if prog.has_func("NixList._inline_preview") else prog.func("NixList.simple_inline_preview"))
     for s in sites:
         res.analysed_functions.add(s.key)
         renders = [c for c in ast.walk(s.node) if isinstance(c, ast.Call) and callee(c) == "rebuild"]
@@ -227,7 +231,8 @@ def run(prog: Program) -> Results:
         guarded = "Parenthesis(" in txt or "isinstance(" in txt or "needs_paren" in txt or "_wrap" in txt
         r4.ob(guarded, {"site": s.key, "renders": [norm(c)[:60] for c in renders]})
         if not guarded:
-            res.add("R-C13-4", (s.key, "element rendered without kind test"), s.loc(),
+            role = "NixList._inline_preview" if s.key in ("NixList._inline_preview", "NixList.simple_inline_preview") else s.key
+            res.add("R-C13-4", (role, "element rendered without kind test"), s.loc(),
                     f"{s.key} renders every list element with `{norm(renders[0])[:60] if renders else '?'}` without looking at its "
                     f"kind: NixList([-1, 2]) renders `[ -1 2 ]`, which Nix reads as a subtraction / syntax error")
     # ---------------------------------------------------------------- R-C13-5 no equality-keyed lookup of raw scalars
